@@ -685,7 +685,7 @@ Definition step (s : pool) (e : event) : pool * ret :=
                                          | None => mkproc (pid q) (widx q) (Some st) (controlled q) (jterm q) (counter q)
                                          end), RNone)
   | ETick => do_tick s
-  | EScan l => do_scan s l
+  | EScan l => (with_todo (fst (do_scan s l)) [], snd (do_scan s l))   (* a whole pass: nothing left to visit *)
   | EScanBegin =>
     if negb (scanner s) then (s, RNoScanner) else
     let snap := map jid (filter incache (jobs s)) in
